@@ -31,12 +31,29 @@ class Rec:
     def put(self, p): self.log.append((self.env.now, p))
 
 
+ASSUMPTIONS.append('generator cases: a second DistPacketGenerator with the same flow id (other source name, own draws) runs in the same Environment; '
+                   'the model sees only the first, the oracle demands ids 1, 2, ... of each')
+ASSUMPTIONS.append('pipelines: a port drop counts as "discarded by the documented rule" only if the tail-drop rule of C09, recomputed from the taps '
+                   '(bytes/packets accepted minus forwarded), asks for it; in packet mode the taps cannot see whether the head packet is in transmission, '
+                   'so the one ambiguous occupancy is accepted either way')
+
+
 def gen_case(rng, cid):
     n = rng.randint(0, 12)
     gaps = [rng.choice([0, 0.5, 1, 1, 2, 0.25, round(rng.random() * 3, 3)]) for _ in range(n + 3)]
     sizes = [rng.choice([40, 100, 512, 1500, rng.randint(1, 2000)]) for _ in range(n + 3)]
-    return {'cid': f'g{cid}', 'kind': 'gen', 'initial': rng.choice([0, 0, 0.5, 1, 2.75]), 'finish': rng.choice([INF, 3, 5.5, 10, sum(gaps[:n])]),
-            'gaps': gaps, 'sizes': sizes, 'flow': rng.randrange(4)}
+    c = {'cid': f'g{cid}', 'kind': 'gen', 'initial': rng.choice([0, 0, 0.5, 1, 2.75]), 'finish': rng.choice([INF, 3, 5.5, 10, sum(gaps[:n])]),
+         'gaps': gaps, 'sizes': sizes, 'flow': rng.randrange(4)}
+    # a second, independent generator lives in the same Environment with the SAME flow id (another source name, its own
+    # draws, its own finish): "a DistPacketGenerator emits packet n (ids 1,2,...)" speaks of each generator by itself, so
+    # the peer must not influence the generator under test (the model sees only the first). Its draws cycle and contain
+    # a positive gap, its finish is finite: it never runs dry and it stops by itself.
+    pg = [rng.choice([0, 0.5, 1, 0.25, 0.3, 2]) for _ in range(rng.randint(1, 5))]
+    if not any(pg):
+        pg.append(rng.choice([0.5, 1, 0.75]))
+    c['peer'] = {'initial': rng.choice([0, 0, 0.5, 1, 0.25]), 'finish': rng.choice([2, 3.5, 6, 11]), 'gaps': pg,
+                 'sizes': [rng.choice([40, 100, 1500]) for _ in range(rng.randint(1, 4))], 'first': rng.random() < 0.5}
+    return c
 
 
 def run_gen(c):
@@ -46,9 +63,24 @@ def run_gen(c):
     def arr():
         used[0] += 1
         return next(gi)
+    peer, plog = c.get('peer'), []
+    def mkpeer():
+        n = [0, 0]
+        def parr():
+            n[0] += 1
+            return peer['gaps'][(n[0] - 1) % len(peer['gaps'])]
+        def psize():
+            n[1] += 1
+            return peer['sizes'][(n[1] - 1) % len(peer['sizes'])]
+        pgen = DistPacketGenerator(env, 'peer', parr, psize, initial_delay=peer['initial'], finish=peer['finish'], flow_id=c['flow'])
+        pgen.out = Rec(env, plog)
+    if peer and peer['first']:
+        mkpeer()
     g = DistPacketGenerator(env, 'src', arr, lambda: next(si), initial_delay=c['initial'], finish=c['finish'], flow_id=c['flow'], rec_flow=True)
     log = []
     g.out = Rec(env, log)
+    if peer and not peer['first']:
+        mkpeer()
     raised = None
     try:
         env.run(until=1e9)
@@ -75,6 +107,14 @@ def run_gen(c):
         if p.time != t_ or p.flow_id != c['flow'] or p.src != 'src':
             fails.append({'what': 'generator packet fields (time/flow/src) wrong', 'signature': 'generator-fields'})
             break
+    # the same clause for the peer generator of the same flow id: ITS packets are numbered 1, 2, ... too, created at the
+    # instant they are handed over, under its own source name
+    pids = [p.packet_id for _, p in plog]
+    if pids != list(range(1, len(pids) + 1)):
+        fails.append({'what': f'a second generator with the same flow id in the same Environment numbered its packets {pids[:6]}..., expected 1, 2, ... '
+                              f'(first generator: {[p.packet_id for _, p in log][:6]}...)', 'signature': 'generator-law-peer'})
+    elif any(p.time != t_ or p.flow_id != c['flow'] or p.src != 'peer' for t_, p in plog):
+        fails.append({'what': 'fields (time/flow/src) of the packets of a second generator with the same flow id are wrong', 'signature': 'generator-fields'})
     return impl, text, fails
 
 
@@ -176,6 +216,9 @@ class Tap:
     def __init__(self, run, name, nxt): self.run, self.name, self.nxt = run, name, nxt
     def put(self, p):
         self.run.log.append((self.name, 'out', self.run.env.now, p))
+        h = self.run.held.get(self.name)
+        if h is not None:
+            h[0] -= p.size; h[1] -= 1
         self.nxt.put(p)
 
 
@@ -185,6 +228,9 @@ class Pipe:
         rng = random.Random(c['seed'])
         self.env = env = Environment()
         self.log = []
+        self.held = {}            # port name -> [bytes, packets] accepted and not yet forwarded, counted at the taps
+        self.badrule = []         # port drops / admissions that are not by the documented tail-drop rule
+        self.nrule = 0
         self.sink = PacketSink(env)
         self.elems = []
         # a chain; optionally a FlowDemux in the middle fanning out to per-flow branches that join at the sink
@@ -231,12 +277,35 @@ class Pipe:
 
     def _tap_put(self, name, e):
         orig = e.put
+        isport = type(e) is Port
+        if isport:
+            self.held[name] = [0, 0]
         def put(p, orig=orig, name=name, e=e):
             d0 = getattr(e, 'packets_dropped', 0)
             self.log.append((name, 'in', self.env.now, p, (p.packet_id, p.flow_id, p.src, p.size, p.time, p.payload)))
             orig(p)
-            if getattr(e, 'packets_dropped', 0) > d0:
+            dropped = getattr(e, 'packets_dropped', 0) > d0
+            if dropped:
                 self.log.append((name, 'drop', self.env.now, p))
+            if isport:
+                # "discarded by that element's documented rule": a port drop is by rule only if the tail-drop rule (C09) asked
+                # for it, recomputed here from what the taps saw. Bytes: refused iff bytes held + size > qlimit. Packets: the
+                # taps cannot tell whether the head packet is already in transmission, so with `n` packets held (waiting or in
+                # transmission) a refusal needs n >= qlimit - 1 and an admission n <= qlimit - 1; no limit: never refused.
+                hb, hn = self.held[name]
+                q = e.qlimit
+                self.nrule += 1
+                if q is None:
+                    bad = dropped
+                elif e.limit_bytes:
+                    bad = dropped != (hb + p.size > q)
+                else:
+                    bad = (hn < q - 1) if dropped else (hn > q - 1)
+                if bad:
+                    self.badrule.append(f'{name} (qlimit {q} {"bytes" if e.limit_bytes else "packets"}): packet {p.packet_id} of {p.size} bytes was '
+                                        f'{"refused" if dropped else "admitted"} with {hb} bytes / {hn} packets held')
+                if not dropped:
+                    self.held[name][0] += p.size; self.held[name][1] += 1
         e.put = put
 
     def run(self):
@@ -286,6 +355,8 @@ def pipe_oracle(c, pr):
         if what == 'in':
             per[name]['snap'][id(p)] = rec[4]
     kinds = {n: k for n, k, _ in pr.elems}
+    if pr.badrule:
+        fails.append({'what': 'a port discarded (or kept) a packet against its documented tail-drop rule: ' + pr.badrule[0], 'signature': 'elem-drop-not-by-rule'})
     for name, d in per.items():
         k = kinds[name]
         ins, outs, drops = d['in'], d['out'], d['drop']
@@ -360,6 +431,7 @@ def run(ctx):
         hist['kind:' + c['kind']] += 1
         if c['kind'] == 'gen':
             a, t, f = run_gen(c); impl[c['cid']] = a; text += t; owner[c['cid']] = c
+            hist['gen:with_peer_of_same_flow'] += 1 if c.get('peer') else 0
         elif c['kind'] == 'sink':
             a, t, f = run_sink(c); impl.update(a); text += t
             for k in a: owner[k] = c
@@ -367,6 +439,7 @@ def run(ctx):
             pr = Pipe(c).run()
             f = pipe_oracle(c, pr)
             npk += len(pr.sent)
+            hist['port_puts_checked_against_tail_drop_rule'] += pr.nrule
             for k in c['chain']: hist['elem:' + k] += 1
             if c['fan']: hist['fan-out:' + c.get('fan_kind', 'flow')] += 1
         for x in f:
